@@ -63,7 +63,7 @@ ASSUMPTIONS = [
     'module defines none, those kinds are noted as unobserved (no floor on them)',
 ]
 FLOORS = {
-    'quick': {'grammars_with_isname_spelling': 100, 'keyword_rejections': 2000, 'alternative_after_rejection': 700, 'nonkeyword_same_as_undecorated': 4000,
+    'quick': {'grammars_with_isname_spelling': 100, 'grammars_where_a_lookahead_over_the_name_rule_decides': 60, 'keyword_rejections': 2000, 'alternative_after_rejection': 700, 'nonkeyword_same_as_undecorated': 4000,
               'ignorecase_directive': 1500, 'ignorecase_setting': 1500, 'gen_compared': 6000, 'name_events': 9000,
               'case_variant_rejected': 800, 'in_lookahead': 250, 'in_closure': 1000, 'uppercase_name_rule': 1500, 'reused_after_flip': 6000, 'based_name_rule': 1200,
               'gen_name_events': 9000,
@@ -119,7 +119,21 @@ def gen_case(rng, kws=None, idpats=IDENT_PATS):
         body = L.Seq((L.Clo(C('ident')), L.Opt(rng.choice(kwtok)), L.Clo(C('ident')), L.EOF()))
         feats.add('in_closure')
     elif shape == 'lookahead':
-        body = L.Seq((L.Clo(L.Group(L.Choice((L.Seq((L.LA(C('ident')), C('ident'))), rng.choice(kwtok))))), L.EOF()))
+        kwalt = rng.choice(kwtok)
+        lrng = random.Random(h64('C11', 'lookahead', idpat, list(kws), upper))
+        sub = lrng.choice(['then-name', 'then-pattern', 'negative'])
+        if sub == 'then-name':
+            item = L.Seq((L.LA(C('ident')), C('ident')))
+        elif sub == 'then-pattern':
+            # the lookahead alone decides: what it lets through is consumed by an UNDECORATED pattern
+            item = L.Seq((L.LA(C('ident')), L.Void(), L.Pat(idpat)))
+            feats.add('lookahead_decides')
+        else:
+            # `!ident` succeeds exactly on reserved words (and on what is no name at all)
+            item = L.Seq((L.NLA(C('ident')), L.Void(), L.Pat(idpat)))
+            kwalt = C('ident')
+            feats.add('lookahead_decides')
+        body = L.Seq((L.Clo(L.Group(L.Choice((item, kwalt)))), L.EOF()))
         feats.add('in_lookahead')
     elif shape == 'choice_after':
         body = L.Seq((L.Clo(L.Group(L.Choice((C('ident'), *kwtok)))), L.EOF()))
@@ -356,6 +370,8 @@ def check(acc, g, settings, mode, feats, texts, origin, alt_off=None, alt_kinds=
     eff = dict(settings)
     if 'isname_spelling' in feats:
         acc.count('grammars_with_isname_spelling')
+    if 'lookahead_decides' in feats:
+        acc.count('grammars_where_a_lookahead_over_the_name_rule_decides')
     case = D.Case(g, 'start', settings=eff, parse_settings=settings)
     if case.model is None:
         acc.violation('exc:build:' + case.build_error[0], f'building failed: {case.build_error} {L.grammar_text(g)!r}',
